@@ -361,6 +361,200 @@ def hole_cases(tier, rng):
                     yield f"{fam}-{position}", {"input": inp, "map": mp, "prefix": "SUPER_", "via": pg.pick_via(inp, i)}
 
 
+# --------------------------------------------------------------------------------------------------
+# case families for the command-line level: several output assemblies per run
+# --------------------------------------------------------------------------------------------------
+# The statement counts the bases over ALL assemblies written.  How many assemblies a run writes, and under which
+# names, depends on the haplotypes in the map: tags that are not known words name a haplotype, an unplaced scaffold
+# belongs to the haplotype its name begins with, Haplotig / Contaminant / FalseDuplicate pieces go to files of their
+# own, and a Primary tag says that only one haplotype of a combined map is curated.  Whatever the combination, no
+# base may fall between the files.
+
+HAPLIKE_PREFIXES = ("HAP1", "HAP2", "h1tg000001l", "h2tg000007l", "Hap3", "atg000012l", "hap2")
+HAPLIKE_FORMS = ("{p}_SCAFFOLD_{j}", "{p}_frag_{j}", "{p}_ctg_{j}_1", "{p}_scaffold_{j}", "{p}_{j}")
+NOHAP_FORMS = ("scaffold_{j}", "ctg0001{j}", "ptg00000{j}l_1", "Scaff{j}")
+HAP_TAGS = (("Hap1", "Hap2", "Hap3"), ("HAP1", "HAP2", "HAP3"), ("Mat", "Pat", "Alt"), ("hapA", "hapB", "hapC"))
+UNPLACED_STATES = ("plain", "plain", "absent", "Haplotig", "Contaminant", "FalseDuplicate")
+CUT_FATES = ("keep", "flip", "Unloc", "Haplotig", "Contaminant", "FalseDuplicate", "unpainted", "none", "none")
+
+
+def bp(texels, bpt):
+    return max(1, math.ceil(texels * bpt))
+
+
+def family_scaffold(name, k, texel_range, bpt, rng, tag):
+    """a FASTA-like scaffold (contig name = scaffold name) or one whose contigs have names of their own"""
+    lens = [bp(rng.randint(*texel_range), bpt) for _ in range(k)]
+    gaps = [rng.choice(((10, "scaffold"), (200, "scaffold"), (1, "contig"), None)) for _ in range(k - 1)]
+    strands = [rng.choice((1, 1, -1)) for _ in range(k)]
+    return pg.make_scaffold(name, lens, strands, gaps, "fasta" if rng.random() < 0.85 else "own", tag=tag)
+
+
+def family_map(chroms, others, bpt, rng, target=False, mix=False):
+    """
+    chroms  [(scaffold, [tags of the painted Pretext scaffold], primary: bool)] in map order: one Pretext scaffold
+            each, painted; a chromosome of >= 6 texels may be cut in two on a texel boundary, the second piece then is
+            kept / put in front reversed / an Unloc / cut off into a Pretext scaffold of its own tagged Haplotig,
+            Contaminant or FalseDuplicate, or left unpainted
+    others  [(scaffold, state, [tags])]: unplaced scaffolds, state 'plain' (its own unpainted Pretext scaffold with
+            the tags given), 'absent' (not in the map at all) or Haplotig / Contaminant / FalseDuplicate
+    target  Target on every painted scaffold and a seeded half of the plain unplaced ones
+    mix     unplaced scaffolds are listed between the chromosomes instead of after them
+    """
+    painted = []
+    rest = []
+    for sc, tags, primary in chroms:
+        rounding = rng.choice(("floor", "ceil"))
+        n = max(1, pg.texels(pg.rows_len(sc["rows"]), bpt, rounding))
+        fate = rng.choice(CUT_FATES) if n >= 6 else "none"
+        cuts = () if fate == "none" else (rng.randint(2, n - 2),)
+        pcs = pg.pieces_of(sc, bpt, rounding, cuts)
+        t = ["Painted", *tags] + (["Target"] if target else [])
+        first = [*pcs[0], rng.choice((1, -1)), t + (["Primary"] if primary else [])]
+        psc = [first]
+        if len(pcs) == 2:
+            second = [*pcs[1], rng.choice((1, -1)), list(t)]
+            if fate == "keep":
+                psc.append(second)
+            elif fate == "flip":
+                psc.insert(0, second)
+            elif fate == "Unloc":
+                second[4].append("Unloc")
+                psc.append(second)
+            elif fate == "unpainted":
+                second[4] = [x for x in tags]
+                rest.append([second])
+            else:
+                second[4] = [*tags, *(["Painted"] if rng.random() < 0.3 else []), fate]
+                rest.append([second])
+        painted.append(psc)
+    for sc, state, tags in others:
+        if state == "absent":
+            continue
+        (pc,) = pg.pieces_of(sc, bpt, "ceil", ())
+        t = list(tags)
+        if state != "plain":
+            t.append(state)
+        elif target and rng.random() < 0.5:
+            t.append("Target")
+        rest.append([[*pc, rng.choice((1, -1)), t]])
+    rng.shuffle(rest)
+    if not mix:
+        return {"bpt": bpt, "scaffolds": painted + rest}
+    scs = []
+    for psc in painted:
+        while rest and rng.random() < 0.4:
+            scs.append(rest.pop())
+        scs.append(psc)
+    return {"bpt": bpt, "scaffolds": scs + rest}
+
+
+def single_haplotype_case(k, rng, n):
+    """
+    a map without haplotype tags: 1-2 painted chromosomes (scaffold_1, scaffold_2; one may carry a name tag), 0-2
+    unplaced scaffolds with plain names, and unplaced scaffolds named after `k` different haplotype-like prefixes
+    (1-2 scaffolds per prefix: HAP1_SCAFFOLD_7, h1tg000001l_frag_3, Hap3_ctg_2_1, HAP2_9 ...)
+    """
+    bpt = pg.BPTS[n % len(pg.BPTS)]
+    inp = []
+    chroms = []
+    for i in range(1, rng.randint(1, 2) + 1):
+        sc = family_scaffold(f"scaffold_{i}", rng.randint(1, 2), (6, 14), bpt, rng, str(i))
+        inp.append(sc)
+        chroms.append((sc, ["X"] if i == 2 and rng.random() < 0.3 else [], False))
+    others = []
+    j = 2
+    for prefix in rng.sample(HAPLIKE_PREFIXES, k):
+        form = rng.choice(HAPLIKE_FORMS[:4]) if rng.random() < 0.9 else HAPLIKE_FORMS[4]
+        for _ in range(rng.randint(1, 2)):
+            j += 1
+            sc = family_scaffold(form.format(p=prefix, j=j), rng.randint(1, 2), (1, 5), bpt, rng, str(j))
+            others.append((sc, rng.choice(UNPLACED_STATES), []))
+    for _ in range(rng.randint(0, 2)):
+        j += 1
+        sc = family_scaffold(rng.choice(NOHAP_FORMS).format(j=j), 1, (1, 5), bpt, rng, str(j))
+        others.append((sc, rng.choice(UNPLACED_STATES), []))
+    rng.shuffle(others)
+    inp.extend(sc for sc, _, _ in others)
+    if rng.random() < 0.3:
+        rng.shuffle(inp)
+    mp = family_map(chroms, others, bpt, rng, target=rng.random() < 0.15, mix=rng.random() < 0.2)
+    return {"input": inp, "map": mp, "prefix": ("SUPER_", "chr")[n % 2], "via": ("agp", "tpf")[n % 2], "cli_out": CLI_OUT_NAMES[n % len(CLI_OUT_NAMES)]}
+
+
+def multi_haplotype_case(n_hap, primary, n_nohap, rng, n):
+    """
+    a combined map of `n_hap` haplotypes (2-3).  Every haplotype has 1-2 chromosomes named <HAP>_SCAFFOLD_<i>, listed
+    in alternating haplotype order and painted; with `primary` only one haplotype is curated: the first piece of its first
+    chromosome carries Primary and the chromosomes of the other haplotypes are painted or left as they are (seeded).
+    The haplotype is written as a tag on the Pretext scaffold or only shows in the scaffold names (seeded per case, as in
+    maps of hifiasm assemblies).  0-2 unplaced scaffolds per haplotype (named <HAP>_SCAFFOLD_<j>) and `n_nohap`
+    scaffolds WITHOUT a haplotype (scaffold_7, ctg00017, ptg000007l_1), each plain / absent / Haplotig / Contaminant /
+    FalseDuplicate.
+    """
+    bpt = pg.BPTS[n % len(pg.BPTS)]
+    haps = rng.choice(HAP_TAGS)[:n_hap]
+    forms = {h: rng.choice((h.upper(), h)) for h in haps}
+    tagged = rng.random() < 0.6
+    curated = rng.randrange(n_hap) if primary else None
+    paint_all = not primary or rng.random() < 0.5
+    n_chr = rng.randint(1, 2)
+    inp = []
+    chroms = []
+    others = []
+    j = 0
+    for i in range(1, n_chr + 1):
+        order = haps if curated is None else [haps[curated]] + [h for h in haps if h != haps[curated]]
+        for hi, h in enumerate(order):
+            j += 1
+            sc = family_scaffold(f"{forms[h]}_SCAFFOLD_{j}", rng.randint(1, 2), (6, 14), bpt, rng, str(j))
+            inp.append(sc)
+            if paint_all or hi == 0:
+                chroms.append((sc, [h] if tagged else [], primary and i == 1 and hi == 0))
+            else:
+                others.append((sc, "plain", [h] if tagged and rng.random() < 0.5 else []))
+    for h in haps:
+        for _ in range(rng.randint(0, 2)):
+            j += 1
+            sc = family_scaffold(f"{forms[h]}_SCAFFOLD_{j}", 1, (1, 5), bpt, rng, str(j))
+            inp.append(sc)
+            others.append((sc, rng.choice(UNPLACED_STATES), [h] if tagged and rng.random() < 0.3 else []))
+    for _ in range(n_nohap):
+        j += 1
+        sc = family_scaffold(rng.choice(NOHAP_FORMS).format(j=j), rng.randint(1, 2), (1, 5), bpt, rng, str(j))
+        inp.append(sc)
+        others.append((sc, rng.choice(UNPLACED_STATES), []))
+    mp = family_map(chroms, others, bpt, rng, target=rng.random() < 0.1, mix=rng.random() < 0.2)
+    return {"input": inp, "map": mp, "prefix": ("SUPER_", "chr")[n % 2], "via": ("agp", "tpf")[n % 2], "cli_out": CLI_OUT_NAMES[n % len(CLI_OUT_NAMES)]}
+
+
+def cli_cases(tier, rng):
+    """
+    Yields (family, case); every case runs the command line.
+      haplike-<k>                       single_haplotype_case with k = 0, 1, 2, 3 haplotype-like name prefixes
+      primary-<h>hap-<m>nohap           multi_haplotype_case with a Primary tag, h = 2, 3 haplotypes, m = 0, 1, 2 scaffolds
+      haps-<h>hap-<m>nohap              without a haplotype; the same without Primary tag (all haplotypes curated)
+    `reps` seeded variants each (scaffold lengths / strands / gaps, which unplaced scaffolds are in the map, which are
+    tagged, how a chromosome is cut and what becomes of the cut-off piece, Target mode, order of the map); texel size,
+    input format (AGP / TPF), output format and --output name rotate.
+    """
+    quick = tier == "quick"
+    n = 0
+    for k in (0, 1, 2, 3):
+        for _ in range((6, 10, 14, 14)[k] if quick else (150, 300, 450, 450)[k]):
+            n += 1
+            yield f"haplike-{k}", single_haplotype_case(k, rng, n)
+    for primary in (True, False):
+        for n_hap in (2, 3):
+            for n_nohap in (0, 1, 2):
+                reps = (4, 10, 8)[n_nohap] if quick else (100, 250, 200)[n_nohap]
+                if not primary:
+                    reps = max(2, reps // 3)
+                for _ in range(reps):
+                    n += 1
+                    yield f"{'primary' if primary else 'haps'}-{n_hap}hap-{n_nohap}nohap", multi_haplotype_case(n_hap, primary, n_nohap, rng, n)
+
+
 def run(tier, seed, **opts):
     rng = random.Random(seed)
     col = Collector(
@@ -370,23 +564,32 @@ def run(tier, seed, **opts):
         "duplicate, overlap, shift, out-of-range, junk baits), an exhaustive tiny scope, and short-contig hole "
         "scenarios (hole_cases: a contig of a + h + b bp at the scaffold start / end / middle, shared by two or three "
         "pieces with shares a, b around 1, E/2 and E = 1 + floor(bp per texel) and h unclaimed or doubly claimed "
-        "bases between them; every value up to E + 2 resp. 2E for E <= 3); oracle: per-base "
-        "partition of the input contigs by all output assemblies; non-trivial = distinct case that completed "
-        "without error and has >= 2 pieces or a perturbation"
+        "bases between them; every value up to E + 2 resp. 2E for E <= 3), and maps that make several output "
+        "assemblies (cli_cases: single-haplotype maps with unplaced scaffolds named after 0-3 haplotype-like prefixes; "
+        "combined maps of 2-3 haplotypes with / without Primary tag and 0-2 scaffolds without a haplotype; tagged pieces "
+        "of every kind, unplaced scaffolds present or absent, Target mode); oracle: per-base "
+        "partition of the input contigs by all output assemblies returned by the library and, for the cli_cases and "
+        "every n-th other case, by ALL AGP / TPF files which the real pretext-to-asm command writes (own readers), plus "
+        "no assembly file announced twice / as overwritten in a fresh directory; non-trivial = distinct case that "
+        "completed without error and has >= 2 pieces or a perturbation"
     )
     stats = {}
     quick = tier == "quick"
     n = 0
 
+    cli_every = 75 if quick else 150  # every n-th case of the streams below also goes through the command line
+
     def one(case, fam, extra=None, nontrivial_hint=True):
         nonlocal n
         n += 1
+        if n % cli_every == 7 and "cli_out" not in case:
+            case = {**case, "cli_out": CLI_OUT_NAMES[(n // cli_every) % len(CLI_OUT_NAMES)]}
         r = check(case, col, stats)
         nontrivial = r.error is None and nontrivial_hint
         sample = None
-        if nontrivial and n % 977 == 0:
+        if nontrivial and (n % 977 == 0 or (fam.startswith("primary") and n % 9 == 0 and len(col.samples) < 1)):
             sample = {"family": fam, **case}
-        col.case(pg.case_key(case), nontrivial=nontrivial, sample=sample)
+        col.case((pg.case_key(case), case.get("cli_out")), nontrivial=nontrivial, sample=sample)
         stats[fam] = stats.get(fam, 0) + 1
 
     # exhaustive tiny scopes
@@ -408,6 +611,11 @@ def run(tier, seed, **opts):
         if roll > 0.5:
             for pc, kinds in pg.perturbations(case, rng, 2):
                 one(pc, "perturbed")
+    # several output assemblies per run, judged on the files of the command line
+    for fam, case in cli_cases(tier, rng):
+        if col.full:
+            break
+        one(case, fam)
     # short contigs shared by pieces that leave a hole (or overlap) inside them
     for fam, case in hole_cases(tier, rng):
         if col.full:
@@ -422,8 +630,10 @@ def run(tier, seed, **opts):
             f"scaffold; hole scenarios at texel sizes {list(HOLE_BPTS[tier])}, long contigs of 4-6 texels, gaps none/1/E/2/E; "
             f"tiny scopes ({tiny_n} cases: {pg.describe_scopes(scopes)}; both strands, every cut set / permutation / "
             "orientation / grouping, painted and unpainted) are enumerated fully, the rest is seeded sampling; "
-            f"runs ending in an error: {stats.get('errors', 0)} (allowed); per family: "
-            + ", ".join(f"{k}={v}" for k, v in sorted(stats.items()) if k != "errors")
+            f"runs ending in an error: {stats.get('errors', 0)} (allowed); cases also run through the command line "
+            f"(every {cli_every}th case + all cli_cases; output AGP and TPF, input as AGP or TPF text): {stats.get('cli', 0)}, "
+            f"of which {stats.get('cli_errors', 0)} ended with a non-zero exit status (allowed); per family: "
+            + ", ".join(f"{k}={v}" for k, v in sorted(stats.items()) if k not in ("errors", "cli", "cli_errors"))
         ),
         exhaustive=False,
     )
